@@ -633,4 +633,138 @@ Section AllocInv.
     rewrite HE in HR. split; [exact (proj1 HR)|exact HO].
   Qed.
 
+  (* ---------------------------------------------------------------- removal: one restructuring step *)
+  (* the parent n1 (possibly already released by the merge: [mpages]) is ready for the descent into child j *)
+  Definition step_ok (h : nat) (s : ast) (n1 : anode) (j : nat) (R : list nat) : Prop :=
+    ais_leaf n1 = false /\ j < length (achildren n1) /\ (avals n1 = [] -> length (achildren n1) = 1) /\
+    wfn L I h (erase (achild n1 j)) /\ min_vals L I (erase (achild n1 j)) < n_vals (erase (achild n1 j)) /\
+    owns s (mpages n1 ++ R).
+
+  Lemma mpages_eq : forall n1 : anode, 1 <= length (avals n1) -> mpages n1 = pages n1.
+  Proof. intros [id vs|id [|v vs] cs] H; cbn [avals length] in H; try lia; reflexivity. Qed.
+
+  Lemma aplug_eq : forall (n1 : anode) j c, 1 <= length (avals n1) -> aplug n1 j c = aset_child n1 j c.
+  Proof. intros [id vs|id [|v vs] cs] j c H; cbn [avals length] in H; try lia; reflexivity. Qed.
+
+  Lemma PK_achild : forall h vs (cs : list anode) i, PK L I h vs (map erase cs) -> i <= length vs ->
+    wfn L I h (erase (nth i cs adnode)).
+  Proof. intros h vs cs i HP Hi. rewrite <- (E5 nth_erase). apply (B7 PK_child h vs); assumption. Qed.
+
+  Lemma acan_true : forall n : anode, acan_remove_from L I n = true -> min_vals L I (erase n) < n_vals (erase n).
+  Proof. intros n H. rewrite <- (E5 acan_remove_from_erase) in H. apply (B7 can_remove_true). exact H. Qed.
+
+  Lemma acan_false : forall h (n : anode), wfn L I h (erase n) -> acan_remove_from L I n = false ->
+    n_vals (erase n) = min_vals L I (erase n).
+  Proof. intros h n W H. rewrite <- (E5 acan_remove_from_erase) in H. apply (B7 can_remove_false h); assumption. Qed.
+
+  Lemma step_direct : forall h s id vs cs i R,
+    PK L I h vs (map erase cs) -> i <= length vs -> 1 <= length vs ->
+    acan_remove_from L I (nth i cs adnode) = true ->
+    owns s (pages (AInode id vs cs) ++ R) -> step_ok h s (AInode id vs cs) i R.
+  Proof.
+    intros h s id vs cs i R HP Hi H1 Hc O. pose proof HP as [Hl _]. rewrite map_length in Hl.
+    unfold step_ok, achild. cbn [ais_leaf achildren avals].
+    split; [reflexivity|]. split; [lia|]. split; [intros E; rewrite E in H1; cbn in H1; lia|].
+    split; [apply (PK_achild h vs); assumption|]. split; [apply acan_true; assumption|].
+    rewrite mpages_eq by exact H1. exact O.
+  Qed.
+
+  Lemma step_rotl : forall h s id vs cs i R,
+    PK L I h vs (map erase cs) -> i < length vs ->
+    acan_remove_from L I (nth (S i) cs adnode) = true -> acan_remove_from L I (nth i cs adnode) = false ->
+    owns s (pages (AInode id vs cs) ++ R) ->
+    step_ok h s (arotate_left dflt (AInode id vs cs) i) i R /\
+    1 <= length (avals (arotate_left dflt (AInode id vs cs) i)).
+  Proof.
+    intros h s id vs cs i R HP Hi Hr Hl0 O. pose proof HP as [Hl _].
+    pose proof (PK_achild h vs cs i HP ltac:(lia)) as Wl. pose proof (PK_achild h vs cs (S i) HP ltac:(lia)) as Wr.
+    pose proof (acan_true _ Hr) as Hr'. pose proof (acan_false h _ Wl Hl0) as Hl'.
+    pose proof (B7 min_lt_max (erase (nth i cs adnode))) as Hmm.
+    rewrite <- (E5 nth_erase) in Hr', Hl', Hmm.
+    destruct (B7 rotate_left_spec h vs (map erase cs) i HP Hi Hr' ltac:(lia))
+      as (x & l' & r' & Er & Wl' & Wr' & Nl & Nr & _).
+    set (n1 := arotate_left dflt (AInode id vs cs) i).
+    assert (En1 : erase n1 = Inode (aset vs i x) (aset (aset (map erase cs) i l') (S i) r'))
+      by (unfold n1; rewrite (E5 erase_rotate_left); exact Er).
+    destruct (erase_child_of n1 _ _ i En1) as (Ec & Hlf & Hlen).
+    rewrite nth_aset_neq in Ec by (rewrite ?length_aset; lia). rewrite nth_aset_eq in Ec by lia.
+    rewrite !length_aset in Hlen by (rewrite ?length_aset; lia).
+    assert (Hv : length (avals n1) = length vs).
+    { rewrite <- (E5 avals_erase), En1. cbn [vals]. apply length_aset. lia. }
+    rewrite map_length in Hl.
+    split; [|lia]. unfold step_ok. rewrite Ec.
+    split; [exact Hlf|]. split; [rewrite map_length in Hlen; lia|].
+    split; [intros E; rewrite E in Hv; cbn in Hv; lia|]. split; [exact Wl'|].
+    split.
+    - rewrite <- (E5 nth_erase) in Wl. destruct (B7 wfn_same_kind h l' _ Wl' Wl) as [Em _]. lia.
+    - rewrite mpages_eq by lia. pose proof (pages_rotate_left h id vs cs i ltac:(lia) Wl Wr) as Hp.
+      fold n1 in Hp. eapply owns_perm; [exact O|perm].
+  Qed.
+
+  Lemma step_rotr : forall h s id vs cs j R,
+    PK L I h vs (map erase cs) -> j < length vs ->
+    acan_remove_from L I (nth j cs adnode) = true -> acan_remove_from L I (nth (S j) cs adnode) = false ->
+    owns s (pages (AInode id vs cs) ++ R) ->
+    step_ok h s (arotate_right dflt (AInode id vs cs) (S j)) (S j) R /\
+    1 <= length (avals (arotate_right dflt (AInode id vs cs) (S j))).
+  Proof.
+    intros h s id vs cs j R HP Hj Hl0 Hr0 O. pose proof HP as [Hl _].
+    pose proof (PK_achild h vs cs j HP ltac:(lia)) as Wl. pose proof (PK_achild h vs cs (S j) HP ltac:(lia)) as Wr.
+    pose proof (acan_true _ Hl0) as Hl'. pose proof (acan_false h _ Wr Hr0) as Hr'.
+    pose proof (B7 min_lt_max (erase (nth (S j) cs adnode))) as Hmm.
+    rewrite <- (E5 nth_erase) in Hr', Hl', Hmm.
+    destruct (B7 rotate_right_spec h vs (map erase cs) j HP Hj Hl' ltac:(lia))
+      as (x & l' & r' & Er & Wl' & Wr' & Nr & Nl & _).
+    set (n1 := arotate_right dflt (AInode id vs cs) (S j)).
+    assert (En1 : erase n1 = Inode (aset vs j x) (aset (aset (map erase cs) j l') (S j) r'))
+      by (unfold n1; rewrite (E5 erase_rotate_right); exact Er).
+    destruct (erase_child_of n1 _ _ (S j) En1) as (Ec & Hlf & Hlen).
+    rewrite nth_aset_eq in Ec by (rewrite ?length_aset; lia).
+    rewrite !length_aset in Hlen by (rewrite ?length_aset; lia).
+    assert (Hv : length (avals n1) = length vs).
+    { rewrite <- (E5 avals_erase), En1. cbn [vals]. apply length_aset. lia. }
+    rewrite map_length in Hl.
+    split; [|lia]. unfold step_ok. rewrite Ec.
+    split; [exact Hlf|]. split; [rewrite map_length in Hlen; lia|].
+    split; [intros E; rewrite E in Hv; cbn in Hv; lia|]. split; [exact Wr'|].
+    split.
+    - rewrite <- (E5 nth_erase) in Wr. destruct (B7 wfn_same_kind h r' _ Wr' Wr) as [Em _]. lia.
+    - rewrite mpages_eq by lia. pose proof (pages_rotate_right h id vs cs j ltac:(lia) Wl Wr) as Hp.
+      fold n1 in Hp. eapply owns_perm; [exact O|perm].
+  Qed.
+
+  Lemma step_merge : forall h s id vs cs i n1 s1 R,
+    PK L I h vs (map erase cs) -> i < length vs ->
+    acan_remove_from L I (nth i cs adnode) = false -> acan_remove_from L I (nth (S i) cs adnode) = false ->
+    amerge dflt s (AInode id vs cs) i = (n1, s1) ->
+    owns s (pages (AInode id vs cs) ++ R) ->
+    step_ok h s1 n1 i R /\ length (avals n1) = length vs - 1.
+  Proof.
+    intros h s id vs cs i n1 s1 R HP Hi Hl0 Hr0 E O. pose proof HP as [Hl _].
+    pose proof (PK_achild h vs cs i HP ltac:(lia)) as Wl. pose proof (PK_achild h vs cs (S i) HP ltac:(lia)) as Wr.
+    pose proof (acan_false h _ Wl Hl0) as Hl'. pose proof (acan_false h _ Wr Hr0) as Hr'.
+    rewrite <- (E5 nth_erase) in Hr', Hl'.
+    destruct (B7 merge_spec h vs (map erase cs) i HP Hi Hl' Hr') as (m & Em & Wm & Nm & _).
+    destruct (E5 erase_merge_pair s _ i n1 s1 E) as [En1 _]. cbn [erase] in En1. rewrite Em in En1.
+    destruct (erase_child_of n1 _ _ i En1) as (Ec & Hlf & Hlen).
+    rewrite (B7 nth_aerase_lt) in Ec by lia. rewrite nth_aset_eq in Ec by lia.
+    rewrite length_aerase, length_aset in Hlen by (rewrite ?length_aset; lia).
+    rewrite map_length in Hl.
+    destruct (amerge_frame h s id vs cs i n1 s1 R ltac:(lia) Hl Wl Wr E O) as (O1 & _ & Hla).
+    assert (Hv : length (avals n1) = length vs - 1).
+    { rewrite <- (E5 avals_erase), En1. cbn [vals]. apply length_aerase. lia. }
+    split; [|exact Hv]. unfold step_ok. rewrite Ec.
+    split; [exact Hlf|]. split; [lia|]. split; [intros E0; rewrite Hla, E0; reflexivity|].
+    split; [exact Wm|]. split; [exact Nm|exact O1].
+  Qed.
+
+  (* consuming a step: the recursive call on child j, then [aplug] *)
+  Lemma step_use : forall h s (n1 : anode) j R s' (c' : anode),
+    step_ok h s n1 j R -> owns s' (pages c' ++ (prest n1 j ++ R)) -> owns s' (pages (aplug n1 j c') ++ R).
+  Proof. intros h s n1 j R s' c' (Hlf & Hj & H1 & _) O. apply ascend_plug; assumption. Qed.
+
+  Lemma step_down : forall h s (n1 : anode) j R,
+    step_ok h s n1 j R -> owns s (pages (achild n1 j) ++ (prest n1 j ++ R)).
+  Proof. intros h s n1 j R (Hlf & Hj & _ & _ & _ & O). apply descend_plug; assumption. Qed.
+
 End AllocInv.
